@@ -48,3 +48,26 @@ check("C14", "exploration", _W + "echo-scripted mocks; requests/responses with r
 check("C15", "exploration", _W + "bodies around both limits (100KiB, 100MiB) declared by Content-Length or chunked on exempt URLs (case variants) and near-miss URLs; oversize must be 4xx with zero bytes upstream, "
       "within-limit must arrive with identical length and SHA-256; 100MiB bodies are really streamed.", _WN,
       "runtime monitoring: boundary-value workload through the real proxy + byte counter / hash oracle at the mock host", "DESIGN.md 3 C15")
+
+check("C08", "fault_enumeration", "The real agent binary runs under strace which kills it at the entry of the k-th invocation of each state-changing syscall (file and socket calls of the worker thread, enumerated from a recording pass) "
+      "between the first status poll and the next poll, in five scenarios (fresh latch, key present, host latched an unknown key, corrupt/truncated local key), plus host-fault scripts per protocol step; after every kill the key "
+      "directory, the mock host's acquire/attest log (with directory snapshots at each attest) and a restarted agent's first signed request are judged.",
+      "Crash model is process death at syscall entry (SIGKILL): torn writes inside one write syscall and power loss are not covered. strace's injection counter is per thread and per syscall; the actual kill site is read back from every trace.",
+      "runtime monitoring with fault injection: syscall-granular crash-point enumeration (strace inject) on the real binary + post-crash/restart oracles", "DESIGN.md 3 C08")
+check("C09", "exploration", "The real KeyKeeper polls a gated mock WireServer in lock-step (paused tokio clock); histories of host answers (versions, enable flips, rule replace/remove, key rotation/forgetting, per-step faults) are generated and after "
+      "every poll the public getters and the recorded redirect-policy map (hook H1, kernel byte format) are compared with a function of the latest answer; failed status polls must change nothing.",
+      "State is observed through public getters and the H1 policy trace; behavioural probes through the proxy are covered by C01/C11. HostGAPlugin mode follows WireServer (documented short-term behaviour).",
+      "runtime monitoring: history generator + reference function of the latest host answer, lock-step via a gate at the mock host", "DESIGN.md 3 C09")
+check("C12", "exploration", "Taint search: every key the mock host latched is searched (hex either case, 16-digit windows, raw bytes, base64) in everything a user can see - all files outside the key directory, stdout/stderr, the captured serial console, "
+      "bytes returned to clients, telemetry uploads, upstream request bytes - over real-binary histories (latch, traffic, /provision, faults, rotation, disable/enable, restart) and a shim-hosted telemetry/status pipeline; strace checks chmod 0700 precedes the first key file.",
+      "Only latched keys are secrets of interest; memory/core dumps are out of scope. Evidence lists bytes scanned per sink.", "runtime monitoring: taint/needle search over all observable sinks + syscall-order monitor (strace)", "DESIGN.md 3 C12")
+check("C13", "exploration", "Process-wide panic hook plus liveness probes while the anchored sites are driven with strings whose multi-byte characters straddle the 1024/4096 cut offsets at every alignment, header values with bytes >= 0x80, "
+      "very long URLs, real callers with multi-byte command lines/user names, and hostile host replies (content types x charsets x frame splits, odd-length UTF-16).",
+      "A site not reached by the workload is reported per site in the evidence; debug build (overflow checks on).", "runtime monitoring: panic observer + boundary-alignment input generator at every anchored truncation/decoding site", "DESIGN.md 3 C13")
+check("C16", "exploration", "Fresh shim process per history on a multi-thread runtime: real provision functions called from separate threads in production-shaped roles with H2 delay points between the two actor messages; every call is timed at the caller and each "
+      "query (getter and HTTP /provision with hostile ticks) must be explained by some linearization of a sequential spec written from the statement; quiescent invariant; status.tag read in a tight loop and watched with inotify.",
+      "Per-query linearizability (not joint); ticks inside the establishing operation's interval are not judged.", "runtime monitoring: recorded concurrent histories + linearizability search against a sequential model, inotify/torn-read monitor for the tag file", "DESIGN.md 3 C16")
+check("C19", "exploration", "Real RollingLogger, event_logger and AuthorizationRulesForLogging::write_all driven through PRNG histories with small limits, restarts and foreign files; the directory is listed after every operation and judged against the configured bounds.",
+      "Concurrent writers are not judged; earlier runs use the same settings.", "runtime monitoring: invariant check on directory listings at every quiescent point of generated histories", "DESIGN.md 3 C19")
+check("C20", "exploration", "All 2^L observation sequences up to L=16 (quick) / 22 (thorough), threshold-straddling and saturation-length runs through the real StatusState, and notification sequences through the real write_state_event, judged by the statement's trace predicates; "
+      "exhaustive for the stated depths.", "Only what the statement fixes is required (a variant with a higher threshold still passes).", "runtime monitoring: exhaustive bounded enumeration through the real code with trace predicates (reference automaton compared for information)", "DESIGN.md 3 C20")
